@@ -27,7 +27,7 @@ ASSUMPTIONS = [
 ]
 NOT_REACHED = ["fewer than four sensors inside the boundary", "coordinates beyond 1e4 x the array extent"]
 BUDGET = {"quick": dict(cases=800, seconds=60, shards=4),
-          "thorough": dict(cases=40000, seconds=600, shards=16)}
+          "thorough": dict(cases=160000, seconds=600, shards=16)}
 REQUIRED = ["mon:weights-equal-area-fractions", "mon:weights-nonnegative-sum-to-one", "mon:retained-indices",
             "mon:permutation-translation-scaling-invariant", "mon:montecarlo-weighted-statistics",
             "mon:montecarlo-reproducible", "mon:montecarlo-weight-scale-invariant", "mon:montecarlo-zero-spread-closed-form"]
